@@ -4,10 +4,11 @@ import pipecheck
 import pipes
 from pipecheck import canon_impl, canon_model, model_request  # noqa: F401
 
-LEAN_TARGETS = ["RxProofs.C03", "RxProofs.Ownership"]
+LEAN_TARGETS = ["RxProofs.C03", "RxProofs.Ownership", "RxProofs.C02Comb", "RxProofs.C02Timed", "RxProofs.C02Win"]
 DRIVER = "drv_pipe"
 DRIVER_ROOT = "Pipe"
-THEOREMS = ["C03.dispose_silences", "C03.dispose_frees_sources", "C03.stays_disposed", "C03.late_subscription_disposed",
+SUPPORT_THEOREMS = ['C02Comb.dispose_releases_all_zip', 'C02Comb.dispose_releases_all_combine_latest', 'C02Comb.dispose_releases_all_with_latest_from', 'C02Comb.dispose_releases_all_fork_join', 'C02Comb.dispose_releases_all_amb', 'C02Comb.dispose_releases_all_amb2', 'C02Comb.dispose_releases_all_merge_all', 'C02Comb.dispose_releases_all_merge_maxc', 'C02Comb.dispose_releases_all_switch', 'C02Comb.dispose_releases_all_seq', 'C02Comb.dispose_releases_all_seq_inline', 'C02Comb.dispose_releases_all_catch_handler', 'C02Win.dispose_releases_all_count', 'C02Win.dispose_releases_all_boundaries', 'C02Win.dispose_releases_all_when', 'C02Win.dispose_releases_all_toggle', 'C02Win.dispose_releases_all_time', 'C02Win.dispose_releases_all_time_or_count', 'C02Win.dispose_releases_all_group', 'C02Comb.dispose_releases_all', 'C02Timed.dispose_cancels_timers', 'C02Timed.released_is_silent', 'C02Win.dispose_releases_all_fin', 'C02Win.group_holder_blocks_release']
+THEOREMS = SUPPORT_THEOREMS + ["C03.dispose_silences", "C03.dispose_frees_sources", "C03.stays_disposed", "C03.late_subscription_disposed",
             "C03.fromIterable_polls", "C03.fromIterable_all", "Ownership.ownership_ok"]
 RULE = ("generated pipelines (as C02) run once undisposed to collect every distinct virtual time of the run, then re-run with dispose() issued "
         "at those times, both before and after the same-instant notifications; recorded container calls replayed through the Lean heap model; "
@@ -22,7 +23,7 @@ LEVEL_TEXT = ("Lean theorems: after dispose() nothing is delivered by any AutoDe
               "late attachments are disposed at once and nothing is un-disposed; from_iterable pulls exactly k+1 elements when disposed during "
               "the k-th on_next. Ownership: regenerated table + decide. Tied to the code by replay of recorded container calls of real pipelines "
               "disposed at every event time, and a direct oracle on notifications, user-callback times and subscription logs.")
-LEVEL_NOTE = ("Partial by catalogue, as C02: ownership (every acquired subscription/timer reachable from the returned disposable) is the regenerated "
+LEVEL_NOTE = ("Per-operator release theorems (every event trace): combinators C02Comb.*, timed operators C02Timed.*, windows/groups/using/finally C02Win.* — proved by the families' builders over their trace machines and audited here. Otherwise partial by catalogue, as C02: ownership (every acquired subscription/timer reachable from the returned disposable) is the regenerated "
               "AST table and the dynamic replay, not per-operator Lean proofs; 'no user callback runs' is derived from every stage's "
               "AutoDetachObserver being disposed and is additionally observed by the oracle on instrumented callbacks.")
 TECHNIQUE = "Lean 4 invariant proofs over a disposable-heap model + regenerated ownership table (decide) + recorded-trace correspondence"
